@@ -21,6 +21,35 @@ SPEC = {'elements': [{'k': 'M', 'J': [1.0, 'gm^2'], 'w0': [2000.0, 'rpm'], 'Tmax
         'links': [{'t': 'J'}], 'load': ['const', 0.001],
         'init': {'theta': [0.0, 'rad'], 'w': [0.0, 'rad/s']}}
 UNITS = ['sec', 'ms', 'min', 'hour']
+SPEC_HELD = {'elements': [{'k': 'M', 'J': [1.0, 'gm^2'], 'w0': [2000.0, 'rpm'], 'Tmax': [10.0, 'mNm'], 'i0': [0.1, 'A'], 'imax': [2.0, 'A']},
+                          {'k': 'Wg', 'starts': 2, 'J': [1.0, 'gm^2'], 'beta': [10.0, 'deg'], 'alpha': [20.0, 'deg']},
+                          {'k': 'Ww', 'z': 30, 'J': [5.0, 'gm^2'], 'beta': [10.0, 'deg'], 'alpha': [20.0, 'deg']}],
+             'links': [{'t': 'J'}, {'t': 'W', 'f': 0.3}], 'load': ['const', 0.05],
+             'init': {'theta': [0.0, 'rad'], 'w': [0.0, 'rad/s']}}
+
+
+def check_held(acc, m, e, n, unit, pwm):
+    """A self-locking chain held by its load (motor off, or overloaded), no motor control, no stop condition:
+    the axis is still the full grid, fresh and continued."""
+    dtF = dec(m, e)
+    dt, T = float(dtF), float(dtF * n)
+    case = {'kind': 'held', 'm': m, 'e': e, 'n': n, 'unit': unit, 'pwm': pwm}
+    mod = sim.Model(SPEC_HELD)
+    mod.elements[0].pwm = pwm
+    try:
+        mod.run([dt, unit], [T, unit])
+        vals = [t.to(unit).value for t in mod.pt.time]
+        r = judge(acc, case, vals, 0.0, dt, T, n, f'held-chain/pwm={pwm}', first=True)
+        mod.run([dt, unit], [T, unit])
+        vals2 = [t.to(unit).value for t in mod.pt.time]
+        if r == 'ok':
+            judge(acc, case, vals2[len(vals) - 1:], vals[-1], dt, T, n, f'held-chain-continued/pwm={pwm}', first=False)
+    except Exception as ex:
+        acc.violation(f'C11/held-chain/run-error/{type(ex).__name__}', 'run succeeds', case, {'exc': repr(ex)[:200]})
+        return
+    acc.executions += 2
+    acc.transitions += len(vals2)
+    acc.outcomes[('held-chain', pwm)] += 1
 
 
 def bounds(tier):
@@ -195,12 +224,19 @@ def run_shard(shard, tier):
                     if rep == 'lit' and (n % 4 == 2 or tier != 'quick'):
                         check_other_schedules(acc, m, e, n, unit)
                         acc.nstates += 1
+                    if rep == 'lit' and (n % 10 == 3 or tier != 'quick') and n <= 40:
+                        for pwm in (0, 1, -1):
+                            check_held(acc, m, e, n, unit, pwm)
+                            acc.nstates += 1
     acc.sample({'dt': f'{m}e-2', 'n': 30, 'T': 'dt*n and decimal literal', 'units': UNITS})
     return acc
 
 
 def replay(case):
     acc = Acc()
+    if case.get('kind') == 'held':
+        check_held(acc, case['m'], case['e'], case['n'], case['unit'], case['pwm'])
+        return acc.violations
     if case.get('kind') == 'sched':
         check_other_schedules(acc, case['m'], case['e'], case['n'], case['unit'])
         return acc.violations
